@@ -801,6 +801,8 @@ pub mod verif_hooks {
                     lf[ti as usize] = table.find_language_feature(script, b.lang_index[ti], tag);
                 }
                 any[ti as usize] = table.features.index(tag);
+                // the F_GLOBAL_SEARCH arm of collect_feature_maps: the first record with the tag up to that hit
+                any[ti as usize] = any[ti as usize].map(|i| first_feature_record(table, i, tag));
                 for x in [lf[ti as usize], any[ti as usize]] {
                     if let Some(i) = x {
                         if !feats.contains(&(ti as usize, i)) {
